@@ -496,3 +496,60 @@ def write_load_case_file(path, case):
         prog = bytes(load_probe_program(case["kind"] if case["kind"] != "unsupported" else "rom", case["romsize"] // 0x4000, case["ramsize"]))
         if flen >= 0x150 + len(prog):
             f.seek(0x150); f.write(prog)
+
+
+# ------------------------------------------------------------------- scenes
+def scene(sid, rng, kind="random"):
+    """A PPU scene: VRAM, OAM and registers held constant over a frame."""
+    vram = [0] * 8192
+    # tile data: a mixture of random tiles and structured ones so that flips and priorities are visible
+    for t in range(384):
+        style = rng.randrange(4)
+        for r in range(8):
+            if style == 0: lo, hi = rng.randrange(256), rng.randrange(256)
+            elif style == 1: lo, hi = (0xF0 if r < 4 else 0x0F), (0xCC if r % 2 else 0x33)
+            elif style == 2: lo, hi = (1 << (r % 8)), (0x80 >> (r % 8))
+            else: lo, hi = 0, 0
+            vram[16 * t + 2 * r] = lo; vram[16 * t + 2 * r + 1] = hi
+    for k in range(0x1800, 0x2000):
+        vram[k] = rng.randrange(256)
+    oam = [0] * 160
+    lcdc = 0x81 | (rng.randrange(64) << 1)
+    sc = {"id": sid, "kind": kind, "lcdc": lcdc, "scx": rng.randrange(256), "scy": rng.randrange(256),
+          "wx": rng.randrange(256), "wy": rng.randrange(256), "bgp": rng.randrange(256), "obp0": rng.randrange(256), "obp1": rng.randrange(256)}
+    def obj(n, y, x, tile, attr):
+        oam[4 * n:4 * n + 4] = [y & 0xFF, x & 0xFF, tile & 0xFF, attr & 0xFF]
+    if kind == "random":
+        for n in range(40):
+            obj(n, rng.randrange(256), rng.randrange(256), rng.randrange(256), rng.randrange(256))
+    elif kind == "window":
+        sc["lcdc"] |= 0x20
+        sc["wx"] = rng.choice([0, 1, 6, 7, 8, 20, 87, 159, 160, 165, 166, 167, 200])
+        sc["wy"] = rng.choice([0, 1, 50, 143, 144, 200])
+        for n in range(40):
+            obj(n, rng.randrange(160), rng.randrange(176), rng.randrange(256), rng.randrange(256))
+    elif kind == "crowded":
+        sc["lcdc"] |= 0x02
+        line = rng.randrange(16, 150)
+        for n in range(40):
+            # more than ten objects on the same lines, equal-X ties, X = 0 and X >= 168 among them
+            obj(n, line + rng.randrange(-3, 4), rng.choice([0, 8, 8, 9, 12, 50, 50, 100, 160, 167, 168, 200, rng.randrange(176)]), rng.randrange(256), rng.randrange(256))
+    elif kind == "tall":
+        sc["lcdc"] |= 0x06
+        for n in range(40):
+            obj(n, rng.choice([0, 1, 8, 15, 16, 17, 100, 152, 159, 160, rng.randrange(176)]), rng.choice([0, 1, 7, 8, 100, 161, 167, 168, rng.randrange(176)]),
+                rng.randrange(256), rng.randrange(256))
+    elif kind == "priority":
+        sc["lcdc"] |= 0x02
+        for n in range(40):
+            obj(n, 16 + 4 * n % 140, 8 + (7 * n) % 150, rng.randrange(256), rng.choice([0x80, 0x00, 0x90, 0x10, 0xE0, 0x60]))
+    elif kind == "scroll":
+        sc["lcdc"] &= ~0x22
+        sc["scx"] = rng.choice([0, 1, 7, 8, 95, 96, 97, 248, 255])
+        sc["scy"] = rng.choice([0, 1, 7, 111, 112, 113, 248, 255])
+    sc["vram"] = vram; sc["oam"] = oam
+    return sc
+
+def scenes(n, rng, start_id=8000000):
+    kinds = ["random", "window", "crowded", "tall", "priority", "scroll"]
+    return [scene(start_id + i, rng, kinds[i % len(kinds)]) for i in range(n)]
